@@ -1,8 +1,9 @@
 import TracklibVerif.Lemmas.GraphPath
 /-! Lemmas for C07: `run_routing_backward` on a state satisfying the invariants returns a route:
 a walk from the source along the recorded edges, with the edges' polylines chained along the travel. -/
+set_option linter.unusedSectionVars false
 namespace TV.Graph
-variable {W : Type} [AddCommMonoid W] [LinearOrder W] [IsOrderedAddMonoid W] {P : Type}
+variable {W : Type} [LinearOrder W] [Add W] [Zero W] [WalkAdd W] {P : Type}
 
 /-- edge ids are unique (`EDGES` is a dict keyed by edge id) -/
 def UniqueIds (net : Net W) : Prop := ∀ e ∈ net.edges, ∀ e' ∈ net.edges, e.id = e'.id → e = e'
